@@ -435,7 +435,11 @@ class Emitter:
         for c in n.get('inner', []):
             if c.get('kind') == 'ParmVarDecl':
                 t = self.ct(c['type'])
-                nm = c.get('name') or ('anon%d' % len(params))
+                nm = c.get('name')
+                if not nm and f.record is not None and f.record.tag == 'ai' and f.name in ('destroy', 'destroy_range'):
+                    # r15b: the empty trivial overloads leave their parameters unnamed; use the generic overloads' names
+                    nm = {'destroy': ['p'], 'destroy_range': ['first', 'last']}[f.name][len([q for q in params if q[0] != 'self'])]
+                nm = nm or ('anon%d' % len(params))
                 if c.get('isParameterPack'):
                     raise Unsupported('parameter pack')
                 params.append((self._cname_var(c, nm), t, c))
